@@ -757,6 +757,69 @@ def check_other_top_level(chk, F):
     chk.floor(rid, "cases", n, 250)
 
 
+# ---- R12.12 which parameter set each parsing / decoding entry point applies ------------------------------------------------------------
+
+def check_entry_params(chk, F):
+    from ..interp import Machine, Adt, Term, Panic, ok
+    from ..report import Unsupported
+    from ..builtins import deref
+    rid = "R12.12"
+    chk.rule(rid, "the miniscript entry points apply the parameter set their name promises, in every context: FromStr and "
+                  "decode validate against the context's SANE parameters, decode_consensus against its CONSENSUS parameters, "
+                  "from_str_insane against CONSENSUS with raw public-key hashes disallowed; each hands exactly its input to the "
+                  "parameterised parser / decoder and returns its result")
+    M = "Miniscript<Pk, Ctx>>::"
+    try:
+        dwp = [q for q in F.fns if q.endswith("::decode_with_validation_params")][0]
+        fwp = [q for q in F.fns if q.endswith("::from_str_with_validation_params")][0]
+        ent = {"decode": [q for q in F.fns if q.endswith("Ctx>>::decode") or q.endswith("Ctx>::decode")][0],
+               "decode_consensus": [q for q in F.fns if q.endswith("::decode_consensus")][0],
+               "from_str_insane": [q for q in F.fns if q.endswith("::from_str_insane")][0],
+               "from_str": [it["path"] for i in F.impls if i["trait"] == "std::str::FromStr" and i["self_adt"] == "miniscript::private::Miniscript"
+                            for it in i["items"] if it["name"] == "from_str"][0]}
+    except IndexError:
+        chk.fail(rid, "anchor", "decode / decode_consensus / from_str / from_str_insane or their parameterised versions not found", kind="unanalysable")
+        return
+    chk.saw(*ent.values())
+    n = 0
+    for ctx in ("Legacy", "Segwitv0", "Tap", "BareCtx"):
+        ctxp = "miniscript::context::" + ctx
+        try:
+            sane = params_value(F, "<%s as miniscript::context::ScriptContext>::SANE" % ctxp)
+            cons = params_value(F, "<%s as miniscript::context::ScriptContext>::CONSENSUS" % ctxp)
+        except KeyError as e:
+            chk.fail(rid, "anchor|" + ctx, "missing %s" % e, kind="unanalysable")
+            continue
+        insane = Adt(cons.path, cons.variant, dict(cons.fields))
+        insane.fields["allow_raw_pkh"] = False
+        want = {"decode": sane, "decode_consensus": cons, "from_str": sane, "from_str_insane": insane}
+        for name, path in sorted(ent.items()):
+            seen = []
+
+            def hook(m_, a, c):
+                seen.append((deref(a[0]), deref(a[1])))
+                return ok(Term("parsed"))
+            m = Machine(F, strict=True, hooks={dwp: hook, fwp: hook})
+            try:
+                r = m.call_callee({"def": path, "resolved": path, "name": name, "targs": ["std::string::String", ctxp],
+                                   "self_ty": "miniscript::private::Miniscript<std::string::String, %s>" % ctxp}, ["INPUT"])
+                n += 1
+                same = len(seen) == 1 and isinstance(seen[0][1], Adt) and set(seen[0][1].fields) == set(want[name].fields) and \
+                    all(repr(seen[0][1].fields[k]) == repr(want[name].fields[k]) for k in want[name].fields)
+                good = same and seen[0][0] == "INPUT" \
+                    and isinstance(r, Adt) and r.variant == "Ok" and repr(deref(r.fields["0"])) == repr(Term("parsed"))
+                diff = []
+                if len(seen) == 1 and isinstance(seen[0][1], Adt):
+                    diff = [k for k in want[name].fields if repr(seen[0][1].fields.get(k)) != repr(want[name].fields[k])]
+                chk.obligation(rid, good, "%s|%s" % (name, ctx), "%s in %s validates with parameters that differ from the promised set in %r "
+                               "(calls: %d, result %s)" % (name, ctx, diff, len(seen), repr(r)[:60]), F.fns[path]["span"])
+            except Unsupported as e:
+                chk.fail(rid, "unanalysable:%s|%s" % (name, ctx), "unanalysable: %s" % e, where=e.where, kind="unanalysable")
+            except Panic as e:
+                chk.fail(rid, "%s|%s" % (name, ctx), "panic: %s" % e, F.fns[path]["span"])
+    chk.floor(rid, "entry point x context", n, 16)
+
+
 def run(chk):
     F = chk.facts()
     chk.explanation = (
@@ -791,5 +854,6 @@ def run(chk):
     chk.guard("R12.8", "pk-len", c04.check_pk_len, al, F)
     chk.guard("R12.9", "key-kinds", check_key_kinds, chk, F)
     chk.guard("R12.10", "bare-standardness", check_other_top_level, chk, F)
+    chk.guard("R12.12", "entry-params", check_entry_params, chk, F)
     from . import limits as _limits
     chk.guard("R12.11", "timelock-composition", _limits.check_timelock_composition, chk, F, "R12.11")
